@@ -2,7 +2,7 @@
 import itertools
 
 from ..runner import Ob
-from ._pag import HDR, assign_ob, partitions
+from ._pag import glue_ob, HDR, assign_ob, partitions
 
 HDR_R = HDR + r'''
 from vf.fakes import FakeFrame
@@ -17,7 +17,9 @@ def render_body(n, bounds, vals, v0, new_page, pr):
     r.encoding_service = NS(encode_spanning_row=lambda text, page_width, rtf_body_attrs=None, col_idx=0: [("SPAN", text)])
     attrs = NS(_encode=lambda seg, cw, row_offset=0: [("ROW", seg.row(i)[0], row_offset + i) for i in range(seg.height)])
     doc = NS(rtf_body=NS(new_page=new_page, pageby_row=PR[pr], page_by=["g"]), df=None, rtf_page=NS(col_width=6.0))
-    gb = [{"absolute_row": b, "page_relative_row": b, "group_values": {"g": v}} for b, v in zip(bounds, vals)]
+    # a boundary into a '-----' divider group carries empty group_values (_detect_group_boundaries filters it)
+    gb = [{"absolute_row": b, "page_relative_row": b, "group_values": ({} if v is None else {"g": v})}
+          for b, v in zip(bounds, vals)]
     page = NS(final_body_attrs=attrs, table_attrs=None, data=FakeFrame({"id": list(range(n))}), col_widths=[1.0],
               group_boundaries=gb or None, pageby_header_info={"group_values": {"g": v0}})
     return PageRenderer._render_body(r, doc, page)
@@ -90,8 +92,10 @@ def build(tier, seed):
     class Rec:
         def slice(self, off, ln=None):
             calls.append((off, ln))
-            return NS(height=ln, tag=(off, ln))
-    pages = [NS(data=NS(height=h)) for h in P]
+            return NS(height=ln, width=2, tag=(off, ln))
+        width = 2
+        height = sum(P)
+    pages = [NS(data=NS(height=h, width=2, tag=None)) for h in P]
     UnifiedRTFEncoder._apply_data_post_processing(NS(), pages, Rec(), NS(group_by=None))
     off = 0
     ok = len(calls) == len(P)
@@ -108,7 +112,7 @@ def build(tier, seed):
     for n in ((2, 3, 4) if quick else (2, 3, 4, 5)):
         for r in range(0, min(n, 3 if quick else 4)):
             for bounds in itertools.combinations(range(1, n), r):
-                vs = ", ".join("v%d: str" % i for i in range(r + 1))
+                vs = ", ".join("v%d: str" % i for i in range(r + 1)) + "".join(", d%d: bool" % i for i in range(1, r + 1))
                 obs.append(Ob(
                     oid="O3.body.n%d.b%s" % (n, "_".join(map(str, bounds)) or "none"),
                     sig=vs + ", new_page: bool, pr: int", pre=["len(v%d) == 1" % i for i in range(r + 1)] + ["0 <= pr <= 1"],
@@ -117,10 +121,10 @@ def build(tier, seed):
     out = render_body(%d, %r, [%s], v0, new_page, pr)
     rows = [x for x in out if x[0] == "ROW"]
     return rows == [("ROW", i, i) for i in range(%d)]
-''' % (n, list(bounds), ", ".join("v%d" % (i + 1) for i in range(r)), n),
+''' % (n, list(bounds), ", ".join("(None if d%d else v%d)" % (i + 1, i + 1) for i in range(r)), n),
                     funcs=["rtflite.encoding.renderer:PageRenderer._render_body"],
                     stubs=["page frame -> FakeFrame with slicing", "TableAttributes._encode / encode_spanning_row -> recorders"],
-                    bounds="page of %d rows, group boundaries at %s, group values symbolic one-character strings, "
+                    bounds="page of %d rows, group boundaries at %s, group values symbolic one-character strings or a '-----' divider, "
                            "new_page/pageby_row symbolic" % (n, list(bounds)),
                     what="segments between boundaries concatenate to all page rows once, in order; each row is encoded "
                          "with row_offset + i equal to its page-relative index"))
@@ -190,6 +194,7 @@ def build(tier, seed):
                        "text_convert off" % (lead, trail),
                 what="a null is rendered as the empty string, any other value as its own text with surrounding blanks "
                      "preserved, cells in column order"))
+    obs.append(glue_ob("O7.section_glue", T))
     meta = {
         "explanation": "Row conservation is decomposed into the pure-Python kernels named in the property's anchors, each executed "
                        "symbolically by CrossHair on the real code: page assignment (unbounded heights), re-slicing by cumulative "
